@@ -312,6 +312,117 @@ func c03Run(u *vfUnit) {
 			u.Sample(map[string]any{"scenario": label, "calls": calls.Load(), "replies_out_of_order": st.OutOfOrder, "max_ids_in_flight": model.maxIn})
 		}
 	}
+	c03CloseRace(u)
+}
+
+// c03CloseRace: Close while other goroutines are in the middle of payload-carrying requests on a transport
+// that takes bytes slowly. Whatever reaches the wire before the connection ends must still be whole
+// packets: the request stream may end between two frames, never inside one.
+func c03CloseRace(u *vfUnit) {
+	r := u.Rng.Fork()
+	for round := 0; round < 4; round++ {
+		ce, se := vfPipe(vfPipeOpts{Buf: 48})
+		var fr vfFramer
+		var mu sync.Mutex
+		writes := 0
+		peerDone := make(chan struct{})
+		go func() {
+			defer close(peerDone)
+			buf := make([]byte, 16+r.Intn(40))
+			for {
+				n, err := se.Read(buf)
+				for k := 0; k < 3; k++ {
+					runtime.Gosched() // a peer that takes its time
+				}
+				if n > 0 {
+					mu.Lock()
+					frames := fr.Feed(buf[:n])
+					mu.Unlock()
+					for _, b := range frames {
+						q, perr := vfParse(b, true)
+						if perr != nil {
+							continue
+						}
+						switch q.Type {
+						case rfInit:
+							se.Write(vfPkt{Type: rfVersion, Version: 3}.Frame())
+						case rfOpen:
+							se.Write(vfPkt{Type: rfHandle, ID: q.ID, Handle: "h"}.Frame())
+						case rfWrite:
+							mu.Lock()
+							writes++
+							mu.Unlock()
+							se.Write(vfStatusFrame(q.ID, rfOK, ""))
+						default:
+							se.Write(vfStatusFrame(q.ID, rfOK, ""))
+						}
+					}
+				}
+				if err != nil {
+					return
+				}
+			}
+		}()
+		c, err := vfNewClient(ce, MaxPacketUnchecked(2000))
+		if err != nil {
+			u.Inconclusive("close-race connect: %v", err)
+			ce.ForceClose()
+			se.ForceClose()
+			return
+		}
+		f, err := c.OpenFile("/close-race", os.O_RDWR)
+		if err != nil {
+			u.Violation("open-failed", "close-race: "+err.Error(), nil)
+			return
+		}
+		var wg sync.WaitGroup
+		for g := 0; g < 3; g++ {
+			wg.Add(1)
+			go func(g int) {
+				defer wg.Done()
+				data := bytes.Repeat([]byte{byte('a' + g)}, 600+g*300)
+				for it := 0; it < 30; it++ {
+					if _, err := f.WriteAt(data, int64(it*2000)); err != nil {
+						return
+					}
+				}
+			}(g)
+		}
+		// let a few writes through, then close in the middle of the traffic
+		for spin := 0; spin < 200000; spin++ {
+			mu.Lock()
+			w := writes
+			mu.Unlock()
+			if w >= 2+round {
+				break
+			}
+			runtime.Gosched()
+		}
+		label := fmt.Sprintf("close-race/round=%d", round)
+		if w, dump := vfAwait(vfGo(func() { c.Close(); wg.Wait() }), 120*time.Second); w != vfDone {
+			if w == vfStuck {
+				u.Violation("close-hang", label+": Close / the writers do not return\n"+vfTrim(dump, 2000), nil)
+			} else {
+				u.Inconclusive("%s: wall-clock cap", label)
+			}
+			ce.ForceClose()
+			se.ForceClose()
+			return
+		}
+		ce.ForceClose()
+		if w, _ := vfAwait(peerDone, 60*time.Second); w != vfDone {
+			se.ForceClose()
+			<-peerDone
+		}
+		se.ForceClose()
+		u.Count("close_races_on_the_request_stream", 1)
+		mu.Lock()
+		pending, bad := fr.Pending(), fr.Bad
+		mu.Unlock()
+		if pending > 0 || bad {
+			u.Violation("request-frame-torn-at-close", fmt.Sprintf("%s: the request stream ended inside a packet (%d bytes of an unfinished frame, framing broken: %v): a request reached the wire in part", label, pending, bad), nil)
+		}
+	}
 }
 
 // c03SecondClient: another Client with its own scripted peer; two goroutines issue Stat/Lstat/ReadLink with long
